@@ -24,3 +24,5 @@ void _ZSt29_Rb_tree_insert_and_rebalancebPSt18_Rb_tree_node_baseS0_RS_(u8 insert
   if (insert_left) { p->left = x; if (p == h) { h->parent = x; h->right = x; } else if (p == h->left) h->left = x; }
   else { p->right = x; if (p == h->right) h->right = x; }
 }
+/* std::map<int,double>::_M_erase (recursive subtree deletion; value type trivially destructible): node memory is simply not reclaimed */
+void _ZNSt8_Rb_treeIiSt4pairIKidESt10_Select1stIS2_ESt4lessIiESaIS2_EE8_M_eraseEPSt13_Rb_tree_nodeIS2_E(char *self, char *x) { }
